@@ -35,8 +35,10 @@ func init() {
 			{ID: "J4", Floor: 3, Doc: "absent nilable document fields are never formatted / dereferenced / asserted (3 decoding UnmarshalJSON methods)", Run: c05J4},
 			{ID: "J5", Floor: 42, Doc: "shapes (tags object, node id array, members never null, null date: 5), osmjson key names (35), codec helpers (2); plus one obligation per observed codec operation", Run: c05J5},
 			{ID: "J6", Floor: 1, Doc: "interface-typed document fields (version: number or string) reach the receiver whatever their dynamic type", Run: c05J6},
+			{ID: "J7", Floor: 6, Doc: "every JSON marshaler (MarshalJSON / MarshalText) of the package has a value receiver, so that it is in the method set of T and *T and a value that is not addressable is still written as osmjson (11 today)", Run: c05J7},
 		},
 		Mutants: []core.Mutant{
+			{Name: "j7-osm-marshaljson-pointer-receiver", File: "osm.go", Find: "func (o OSM) MarshalJSON(", Replace: "func (o *OSM) MarshalJSON(", ExpectRule: "J7", ExpectConstruct: "receiver@OSM.MarshalJSON"},
 			{Name: "j6-version-type-switch-no-default", File: "osm.go", Find: "\tif s.Version != nil {\n\t\to.Version = fmt.Sprintf(\"%v\", s.Version)\n\t}", Replace: "\tswitch v := s.Version.(type) {\n\tcase string:\n\t\to.Version = v\n\tcase float64:\n\t\to.Version = fmt.Sprint(v)\n\t}", ExpectRule: "J6", ExpectConstruct: "Version"},
 			{Name: "way-type-key-renamed", File: "way.go", Find: "xmlNameJSONTypeWay `xml:\"way\" json:\"type\"`", Replace: "xmlNameJSONTypeWay `xml:\"way\" json:\"kind\"`", ExpectRule: "J1", ExpectConstruct: "type@Way"},
 			{Name: "license-not-written", File: "osm.go", Find: "}{o.Version, o.Generator, o.Copyright, o.Attribution, o.License, o.Bounds, elements}", Replace: "}{o.Version, o.Generator, o.Copyright, o.Attribution, \"\", o.Bounds, elements}", ExpectRule: "J1", ExpectConstruct: "carried@OSM.License"},
